@@ -292,6 +292,8 @@ def pnum(s):
         return "max"
     if s == "0":
         return Fraction(0)
+    if "p" not in s:
+        return s    # inf, -inf or anything else the implementation printed: equal to no documented value
     m, e = s.split("p")
     return Fraction(int(m)) * Fraction(2) ** int(e)
 
